@@ -604,4 +604,82 @@ class C06e(C06c):
                          'C06-extract-function-statement-range': statements})
 
 
-OBLIGATIONS = [C06a, C06b, C06d, C06f, C06g, C06h, C06i, C06c, C06e]
+INLINE_PROGRAMS = [
+    "a = 3\nb = a + 1; c = b * a\ndef f(x):\n    y = x - 1\n    z = y * 2; w = z\n    if x:\n        t = 5\n    return w + y\nresult = (c, f(a), -b)\n",
+    "x = 1 if True else 2\ny = lambda q: q + x\nk = x, 2\nn = [x, *k]\nresult = (y(1), k, n, x ** 2, not x)\n",
+    "g = 10\ndef h():\n    global g\n    v = g + 1\n    return v\nclass K:\n    attr = g\n    other = attr * 2\nresult = (h(), K.other, g)\n",
+]
+
+
+def inline_regions(module, leaf):
+    """recorded defect regions of inline, decided from the tokens spelled like the name under the cursor"""
+    if leaf is None or leaf.type != 'name':
+        return False, False, False
+    names = module.get_used_names().get(leaf.value, [])
+    semicolon = declared = class_attribute = False
+    for n in names:
+        if n.parent.type in ('global_stmt', 'nonlocal_stmt'):
+            declared = True
+        if n.is_definition():
+            stmt = n.get_definition()
+            if stmt is not None and stmt.parent is not None and stmt.parent.type == 'simple_stmt' \
+                    and any(ch == ';' for ch in stmt.parent.children):
+                semicolon = True
+            scope = stmt
+            while scope is not None and scope.type not in ('classdef', 'funcdef', 'file_input'):
+                scope = scope.parent
+            if scope is not None and scope.type == 'classdef':
+                class_attribute = True
+    return semicolon, declared, class_attribute
+
+
+class C06j(Obligation):
+    id = 'C06.j'
+    title = 'inline at EVERY cursor position of a program: refused with RefactoringError, or the result compiles and computes the same'
+    pattern = 'P4 concrete tree x symbolic cursor; oracle: compile + run both programs'
+    interpret_modules = ('jedi.api', 'parso', 'obligations')
+    loop_bound = 600
+    max_paths = 6000
+    assumptions = (
+        'three side-effect-free programs (several statements per line, conditional expressions, lambdas, star '
+        'expressions, a global declaration, class attributes); (line, column) symbolic inside the text; the token lookup '
+        '(parso get_name_of_position) and jedi.api (inline, its preconditions and text assembly) are interpreted, the '
+        'reference search (jedi.inference) runs natively on the concrete token; project directory empty',
+    )
+    findings = {
+        'C06-inline-semicolon': 'the definition shares its line with other statements (a = 1; b = a)',
+        'C06-inline-global-declared': 'the name also occurs in a global/nonlocal declaration',
+        'C06-inline-class-attribute': 'the definition is a class attribute (references through the class are replaced by the bare expression)',
+    }
+
+    def configs(self, tier):
+        return [dict(file=i) for i in range(len(INLINE_PROGRAMS))]
+
+    def scenario(self, ctx, cfg):
+        src = INLINE_PROGRAMS[cfg['file']]
+        if not _PROJECT:
+            _PROJECT.append(_jedi.Project('/virtual'))
+        script = _jedi.Script(src, path='/virtual/m.py', project=_PROJECT[0])
+        lines = src.split('\n')
+        K = len(lines) - 1
+        line = ctx.int('line', 1, K)
+        column = ctx.int('column', 0)
+        ctx.assume(column <= len(lines[line - 1]))
+        raw = _jedi.Script.inline
+        ctx.force(raw, getattr(raw, '__wrapped__', raw))
+        out = ctx.call(script.inline, line, column)
+        if out.exc is not None:
+            ctx.check(out.raised(RefactoringError), 'what cannot be inlined is refused with RefactoringError, nothing else')
+            return
+        new_code = out.value.get_changed_files()[script.path].get_new_code()
+        verdict = judge_program(src, new_code)
+        ctx.observe((verdict[0], new_code), 'result')
+        leaf = ctx.run(script._module_node.get_name_of_position, (line, column))
+        semicolon, declared, class_attribute = inline_regions(script._module_node, leaf)
+        ctx.check(verdict[0] != 'does-not-compile', 'the refactored program compiles',
+                  known={'C06-inline-semicolon': semicolon, 'C06-inline-global-declared': declared})
+        ctx.check(verdict[0] in ('ok', 'does-not-compile'), 'and computes the same result',
+                  known={'C06-inline-class-attribute': class_attribute})
+
+
+OBLIGATIONS = [C06a, C06b, C06d, C06f, C06g, C06h, C06i, C06c, C06e, C06j]
